@@ -263,7 +263,7 @@ func MergeAt(pf PolicyFn, path []string, a, b *Node) *Node {
 				a.A = append(a.A, bv.Clone())
 			}
 		}
-		if b.HasA {
+		if len(b.A) > 0 {
 			a.HasA = true
 		}
 	}
